@@ -103,6 +103,7 @@ type primShape struct {
 	boxEdges      bool         // creases are the edges of an axis-aligned box (decided from the hit points)
 	coneAxis      *pvec        // cone: unit axis, and
 	coneSlope     float64      // radius / height (rays parallel to a generator line are not in general position)
+	approx        float64      // > 0: a sampling collider of that resolution (positions to that accuracy, noisy normals, no ball queries)
 }
 
 type prim3 interface {
@@ -599,6 +600,62 @@ func genFull(rng *rand.Rand, n int) []*primShape {
 			genCircle(rng), genRect2(rng), genCapsule2(rng), genTriangle(rng, i%2 == 0))
 	}
 	return out
+}
+
+// genSolidCollider: the solid-sampling collider around a primitive whose true surface is known
+func genSolidCollider(rng *rand.Rand, kind int) *primShape {
+	var base *primShape
+	var solid model3d.Solid
+	switch kind % 3 {
+	case 0:
+		lo := [3]int{ri(rng, -3, 1), ri(rng, -3, 1), ri(rng, -3, 1)}
+		hi := [3]int{lo[0] + ri(rng, 1, 4), lo[1] + ri(rng, 1, 4), lo[2] + ri(rng, 1, 4)}
+		r := model3d.NewRect(v3c(i3f(lo)), v3c(i3f(hi)))
+		base, solid = adapt3("", "", r), r
+		base.variant = fmt.Sprintf("Rect lo=%v hi=%v", lo, hi)
+		lo4, hi4 := i3scale(lo, 4), i3scale(hi, 4)
+		boxSpecials(base, lo4, hi4, 3, rng)
+	case 1:
+		c := [3]int{ri(rng, -2, 2), ri(rng, -2, 2), ri(rng, -2, 2)}
+		r := ri(rng, 1, 3)
+		sp := &model3d.Sphere{Center: v3c(i3f(c)), Radius: float64(r)}
+		base, solid = adapt3("", "", sp), sp
+		base.variant = fmt.Sprintf("Sphere c=%v r=%d", c, r)
+		base.special = append(base.special, primSpecial{i3scale(c, 4), "centre"})
+	default:
+		p1 := [3]int{ri(rng, -2, 2), ri(rng, -2, 2), ri(rng, -2, 0)}
+		h, r := ri(rng, 1, 3), ri(rng, 1, 2)
+		cy := &model3d.Cylinder{P1: v3c(i3f(p1)), P2: v3c(i3f([3]int{p1[0], p1[1], p1[2] + h})), Radius: float64(r)}
+		base, solid = adapt3("", "", cy), cy
+		base.variant = fmt.Sprintf("Cylinder p1=%v h=%d r=%d", p1, h, r)
+		base.special = append(base.special, primSpecial{i3scale(p1, 4), "centre"})
+	}
+	eps := []float64{1.0 / 64, 1.0 / 16, 3.0 / 128}[kind/3%3]
+	sc := &model3d.SolidCollider{Solid: solid, Epsilon: eps}
+	if kind%2 == 1 {
+		sc.NormalBisectEpsilon = eps / 8
+	}
+	s := base
+	s.site = "model3d.SolidCollider"
+	s.variant += fmt.Sprintf(" eps=%g", eps)
+	s.shape, s.data = "none", nil
+	s.approx = eps
+	s.bounds = func() (pvec, pvec) { return c3v(sc.Min()), c3v(sc.Max()) }
+	s.rays = func(or, d pvec, cb bool) (int, []primHit) {
+		r := &model3d.Ray{Origin: v3c(or), Direction: v3c(d)}
+		if !cb {
+			return sc.RayCollisions(r, nil), nil
+		}
+		hs := []primHit{}
+		n := sc.RayCollisions(r, func(rc model3d.RayCollision) { hs = append(hs, primHit{rc.Scale, c3v(rc.Normal)}) })
+		return n, hs
+	}
+	s.first = func(or, d pvec) (primHit, bool) {
+		rc, ok := sc.FirstRayCollision(&model3d.Ray{Origin: v3c(or), Direction: v3c(d)})
+		return primHit{rc.Scale, c3v(rc.Normal)}, ok
+	}
+	s.ball = nil
+	return s
 }
 
 // ---------------------------------------------------------------------------- generators: solids only
@@ -1303,6 +1360,14 @@ func primRay(s *primShape, o4, d [3]int, e int, extent float64) primRayQ {
 		tpos = h.t >= 0
 		onsurf = math.Abs(s.sdf(x)) < 1e-7*math.Max(1, math.Max(pvMaxAbs(x), extent))
 		nunit = math.Abs(pvNorm(h.n)-1) <= 1e-9
+		if s.approx > 0 {
+			// sampled: the bisected position is on the surface to far better than the step, the
+			// normal is a Monte-Carlo estimate (unit; outward only in the weak sense of not pointing inward)
+			onsurf = math.Abs(s.sdf(x)) < 1e-6*math.Max(1, math.Max(pvMaxAbs(x), extent))
+			nout = nunit && s.sdf(pvAdd(x, pvScale(h.n, s.approx))) < s.approx*0.5
+			nsurf = true
+			return
+		}
 		nout = primOutward(s, x, h.n)
 		nsurf = !onsurf || !nunit || primNormalAt(s, x, h.n)
 		return
@@ -1391,7 +1456,7 @@ func primRay(s *primShape, o4, d [3]int, e int, extent float64) primRayQ {
 			}
 		}
 		q.Firstok = q.Firstok && math.Abs(f.t-best.t) <= 1e-9*math.Max(1, math.Abs(best.t)) &&
-			(same > 1 || pvNorm(pvSub(f.n, best.n)) <= 1e-9)
+			(same > 1 || s.approx > 0 || pvNorm(pvSub(f.n, best.n)) <= 1e-9)
 	}
 	// exact ray parameters (boxes): 24 * t * 2^e is an integer
 	q.T24x = true
@@ -1448,7 +1513,7 @@ func primRunCollider(id int, s *primShape, rng *rand.Rand, nrays, nballs int) pr
 		}
 		rec.Rays = append(rec.Rays, o)
 	}
-	for i := 0; i < nballs; i++ {
+	for i := 0; i < nballs && s.ball != nil; i++ {
 		c4 := primLatticePoint(rng, mn, mx, s.dim, 2, 1)
 		r4 := ri(rng, 1, 16)
 		var b primBallQ
@@ -1525,7 +1590,11 @@ func init() {
 		defer out.close()
 		rng := rand.New(rand.NewSource(int64(a.int("seed", 1))*7919 + 7))
 		stats := map[string]int{}
-		for i, s := range genFull(rng, a.int("n", 4)) {
+		shapes := genFull(rng, a.int("n", 4))
+		for i := 0; i < 3*a.int("n", 4); i++ {
+			shapes = append(shapes, genSolidCollider(rng, i))
+		}
+		for i, s := range shapes {
 			rec := primRunCollider(i+1, s, rng, a.int("rays", 60), a.int("balls", 20))
 			stats["records"]++
 			stats["site:"+s.site]++
